@@ -19,8 +19,12 @@ use std::panic::{catch_unwind, AssertUnwindSafe};
 pub type PApp = App<InstrBank>;
 
 pub const NATIVE_DENOM: &str = "uwasm";
-pub const TRADERS: [&str; 5] = ["alice", "bob", "carol", "whale", "dave"];
-pub const N_TRADERS: usize = 5;
+/// the last trader's name is "0" + the first trader's: together with an address "<vamm>0" it collides with the
+/// first trader's position key if keys are built by plain concatenation (adversarial naming, used by alias ops)
+pub const TRADERS: [&str; 6] = ["alice", "bob", "carol", "whale", "dave", "0alice"];
+pub const N_TRADERS: usize = 6;
+pub const ALIAS_ATTACKER: usize = 0;
+pub const ALIAS_VICTIM: usize = 5;
 pub const POOR: usize = 4;
 pub const WHALE: usize = 3;
 
